@@ -889,6 +889,8 @@ pub fn comp_rule(id: &str) -> (&'static str, &'static [&'static str]) {
 use crate::stress::{self, Kind, SResult, StressCase};
 
 pub struct StressPart {
+    /// every generated case on colliding key pairs with the perturbing hasher
+    pub force_collide: bool,
     pub kind: Kind,
     pub quick: u32,
     pub thorough: u32,
@@ -896,9 +898,10 @@ pub struct StressPart {
 }
 
 pub fn stress_parts(id: &str) -> Vec<StressPart> {
-    let p = |kind, quick, thorough, async_pct| StressPart { kind, quick, thorough, async_pct };
+    let p = |kind, quick, thorough, async_pct| StressPart { force_collide: false, kind, quick, thorough, async_pct };
+    let pc = |kind, quick, thorough, async_pct| StressPart { force_collide: true, kind, quick, thorough, async_pct };
     match id {
-        "C02" => vec![p(Kind::Invariants, 640, 12000, 25), p(Kind::Validated, 200, 4000, 25)],
+        "C02" => vec![p(Kind::Invariants, 640, 12000, 25), p(Kind::Validated, 200, 4000, 25), pc(Kind::Invariants, 1200, 12000, 25)],
         "C17" => vec![p(Kind::Invariants, 640, 12000, 25), p(Kind::Lookups, 240, 4000, 35)],
         "C01" | "C06" => vec![p(Kind::Invariants, 640, 12000, 25)],
         "C08" => vec![p(Kind::Invariants, 640, 12000, 25), p(Kind::Close, 640, 10000, 30)],
@@ -907,6 +910,7 @@ pub fn stress_parts(id: &str) -> Vec<StressPart> {
         "C05" => vec![p(Kind::Reclaim, 96, 2000, 50)],
         "C09" => vec![p(Kind::Validated, 480, 8000, 25)],
         "C15" => vec![p(Kind::Lookups, 480, 8000, 35)],
+        "C18" => vec![pc(Kind::Invariants, 1600, 16000, 25)],
         "C13" => vec![p(Kind::Lookups, 320, 6000, 35)],
         "C10" => vec![p(Kind::Barrier, 640, 12000, 25), p(Kind::WaitRace, 640, 12000, 25)],
         "C12" => vec![p(Kind::Close, 960, 16000, 30)],
@@ -957,7 +961,27 @@ pub fn run_stress_part(prop: &str, part: &StressPart, tier: &str, seed: u64, sta
     // pattern is excluded by construction and probed separately), so that it can continue behind it
     let exclude_close = known.iter().any(|k| k.signature == "wait_blocked_after_close");
     let strat = stress::stress_strategy(part.kind, part.async_pct);
-    let mut cases: Vec<StressCase> = sample_values(&strat, n, seed.wrapping_mul(31).wrapping_add(part.kind as u64 + 1));
+    let mut cases: Vec<StressCase> = sample_values(&strat, n, seed.wrapping_mul(31).wrapping_add(part.kind as u64 + 1 + 1000 * part.force_collide as u64));
+    if part.force_collide {
+        // two colliding pairs only, and half of the plain lookups through get_mut
+        for c in cases.iter_mut() {
+            c.cfg.collide = true;
+            for t in c.threads.iter_mut() {
+                for (i, op) in t.iter_mut().enumerate() {
+                    match op {
+                        stress::SOp::Insert { k, .. } | stress::SOp::Iip { k, .. } | stress::SOp::Remove { k } | stress::SOp::GetMut { k } | stress::SOp::GetLinger { k, .. } => *k %= 4,
+                        stress::SOp::Get { k } => {
+                            *k %= 4;
+                            if i % 2 == 0 {
+                                *op = stress::SOp::GetMut { k: *k };
+                            }
+                        }
+                        _ => {}
+                    }
+                }
+            }
+        }
+    }
     let mut excluded = 0u64;
     if exclude_close && part.kind == Kind::WaitRace {
         for c in cases.iter_mut() {
